@@ -199,6 +199,11 @@ void pbt_generate(Rng& r, int size, Case& c) {
   static const char* const KEYS[] = {"A", "PATH", "HOME", "C20_X", "k", "_", "A1", "C20_MARKER", "LANG"};
   for (int k = 0; k < nruns; ++k) {
     if (r.chance(20)) { c.add("pair", (long)r.below(1024), (long)r.below(4096), (long)r.below(65536), (long)r.below(16)); continue; }
+    if (r.chance(30)) {   // the parent changes its own environment through the library: inherited by children started without a map
+      int np = 1 + (int)r.below(3);
+      static const char* const PKEYS[] = {"C20_P0", "C20_P1", "C20_P2", "C20_MARKER2"};
+      for (int j = 0; j < np; ++j) c.add("penv", 0, 0, 0, 0, std::string(PKEYS[r.below(4)]) + "=" + (r.chance(30) ? std::string() : rword(r)));
+    }
     if (r.chance(45)) {
       int ne = 1 + (int)r.below(5);
       for (int j = 0; j < ne; ++j) {
@@ -478,6 +483,8 @@ void runOne(const Op& op, Pending& pd, Ctx& ctx, Process*& kept) {
     std::string m = std::string(MARKER) + "=" + mark;
     if (!std::binary_search(got.begin(), got.end(), m)) failf(ctx, "mismatch:env-inherit", "the marker variable " + m + " did not reach the child");
     for (char** e = environ; *e; ++e) if (!std::binary_search(got.begin(), got.end(), std::string(*e))) failf(ctx, "mismatch:env-inherit", "parent variable missing in the child: " + printable(*e));
+    { std::vector<std::string> par; for (char** e = environ; *e; ++e) par.push_back(*e); std::sort(par.begin(), par.end());
+      for (auto& g : got) if (!std::binary_search(par.begin(), par.end(), g)) failf(ctx, "mismatch:env-inherit", "the child has a variable the parent does not have: " + printable(g)); }
   }
   if (form == 5) return;
   if (inR) {
@@ -588,6 +595,7 @@ void runPair(const Op& op, Ctx& ctx) {
 
 void pbt_run(const Case& c, Ctx& ctx) {
   setenv(MARKER, "init", 1);
+  unsetenv("C20_P0"); unsetenv("C20_P1"); unsetenv("C20_P2"); unsetenv("C20_MARKER2");   // a case is a pure function of its text
   int fds0 = countFds();
   {
     Pending pd;
@@ -602,6 +610,25 @@ void pbt_run(const Case& c, Ctx& ctx) {
         if (k.empty()) k = "K";
         bool known = false; for (auto& kv : pd.env) if (kv.first == k) { kv.second = v; known = true; }
         if (!known) { if (pd.env.size() >= 5) ctx.count("skipped"); else pd.env.push_back({k, v}); }
+      } else if (op.name == "penv") {
+        std::string d(op.data.c_str());
+        size_t eq = d.find('=');
+        std::string k = eq == std::string::npos ? d : d.substr(0, eq), v = eq == std::string::npos ? std::string() : d.substr(eq + 1);
+        if (k.compare(0, 4, "C20_") != 0 || k.find('=') != std::string::npos) { ctx.count("skipped"); continue; }
+        bool ok = Process::setEnvironmentVariable(String(k.data(), k.size()), String(v.data(), v.size()));
+        const char* now = getenv(k.c_str());
+        // an empty value removes the variable
+        if (v.empty() ? now != nullptr : (now == nullptr || v != now)) failf(ctx, "mismatch:setenv", "after setEnvironmentVariable(\"" + k + "\", \"" + printable(v) + "\") the variable " + (now ? "is \"" + printable(now) + "\"" : std::string("is not set")));
+        if (!ok) failf(ctx, "mismatch:setenv-result", "setEnvironmentVariable(\"" + k + "\", \"" + printable(v) + "\") changed the environment as asked but returned false");
+        String dflt("<default>"); String gv = Process::getEnvironmentVariable(String(k.data(), k.size()), dflt);
+        std::string want = now ? std::string(now) : std::string("<default>");
+        if (std::string((const char*)gv, gv.length()) != want) failf(ctx, "mismatch:getenv", "getEnvironmentVariable(\"" + k + "\") returned \"" + printable(std::string((const char*)gv, gv.length())) + "\", the environment says \"" + printable(want) + "\"");
+        // the whole environment as a map: one entry per name, the value of its first occurrence
+        Map<String, String> all = Process::getEnvironmentVariables();
+        std::map<std::string, std::string> ref; for (char** e = environ; *e; ++e) { const char* x = strchr(*e, '='); if (!x) continue; std::string kk(*e, (size_t)(x - *e)); if (!ref.count(kk)) ref[kk] = x + 1; }
+        if (all.size() != ref.size()) failf(ctx, "mismatch:getenv-all", "getEnvironmentVariables() has " + std::to_string(all.size()) + " entries, the environment " + std::to_string(ref.size()) + " names");
+        for (Map<String, String>::Iterator i = all.begin(); i != all.end(); ++i) { std::string kk((const char*)i.key(), i.key().length()), vv((const char*)*i, (*i).length()); auto it = ref.find(kk); if (it == ref.end() || it->second != vv) failf(ctx, "mismatch:getenv-all", "getEnvironmentVariables(): entry \"" + printable(kk) + "\" = \"" + printable(vv) + "\" differs from the environment"); }
+        ctx.label(v.empty() ? "parent_env_unset" : "parent_env_set");
       } else if (op.name == "arg") {
         if (pd.args.size() >= 6) ctx.count("skipped"); else pd.args.push_back({std::string(op.data.c_str()), op.a[0], op.a[1]});
       } else if (op.name == "io") {
